@@ -112,6 +112,10 @@ def mk_particle(spec):
 
 
 def mk_events(case):
+    if case.get("alias_particles"):
+        # particles with the same specification are one and the same object, in whichever events (and however often) they occur
+        seen = {}
+        return [[seen.setdefault(json.dumps(s, sort_keys=True), mk_particle(s)) for s in ev] for ev in case["events"]]
     if case.get("alias"):
         # resampled input: events with the same specification are one and the same list object
         seen, out = {}, []
@@ -166,12 +170,14 @@ def run_impl(case, workdir=None):
     with np.errstate(all="ignore"):
         bulk = BulkObservables(evs)
         # earlier calls on the SAME object (other widths / rapidity flavours / spectra): results must not depend on them
+        kept = []
         for pre in case.get("prelude", []):
             try:
                 if pre["m"].startswith("mid"):
                     getattr(bulk, pre["m"])(H.num(pre["width"]), pre["quantity"])
                 else:
-                    getattr(bulk, pre["m"])()
+                    hp = getattr(bulk, pre["m"])() if pre.get("bins") is None else getattr(bulk, pre["m"])(bins_arg(pre["bins"]))
+                    kept.append((hp, H.snap(hp)))          # the caller keeps the histogram an earlier call returned
             except Exception:
                 pass
         if case["kind"] == "yield":
@@ -186,6 +192,7 @@ def run_impl(case, workdir=None):
             try:
                 h = getattr(bulk, case["method"])() if b is None else getattr(bulk, case["method"])(bins_arg(b))
                 out["state"] = H.snap(h)
+                out["hist"] = H.arr_snap(h.histogram())    # what the caller sees
                 out["exc"] = None
             except Exception as e:
                 out["state"], out["exc"] = None, H.exc_name(e)
@@ -217,6 +224,10 @@ def run_impl(case, workdir=None):
                 except Exception as e:
                     out[name] = {"exc": H.exc_name(e)}
     out["unmodified"] = same_snapshot(before, snapshot(evs), evs, ids)
+    try:
+        out["earlier_results_unchanged"] = all(json.dumps(H.snap(hp), sort_keys=True) == json.dumps(s0, sort_keys=True) for hp, s0 in kept)
+    except Exception:
+        out["earlier_results_unchanged"] = False
     return out
 
 
@@ -315,6 +326,17 @@ def gen_events(rng, edges, flavour, nev=None):
     return evs
 
 
+def _share_particles(rng, case):
+    """one particle object in several events / several times in one event (the specification is repeated; mk_events builds one object)"""
+    evs = case["events"]
+    src = [s for ev in evs for s in ev]
+    if not src:
+        return
+    for _ in range(rng.choice([1, 2, 3])):
+        evs[rng.randrange(len(evs))].append(json.loads(json.dumps(rng.choice(src))))
+    case["alias_particles"] = True
+
+
 def gen_case(rng):
     if rng.random() < 0.6:
         method = rng.choice(["dNdy", "dNdpT", "dNdEta", "dNdmT"])
@@ -350,6 +372,23 @@ def gen_case(rng):
             if rng.random() < 0.5:
                 evs.append(json.loads(json.dumps(evs[0])))
             case["alias"] = True
+        elif evs and rng.random() < 0.12:
+            _share_particles(rng, case)
+        if rng.random() < 0.35:
+            # the object has been used before and the caller still holds what it returned: the same spectrum with the same binning,
+            # with another binning, another spectrum, a mid-rapidity number
+            pre = []
+            for _ in range(rng.choice([1, 1, 2])):
+                r = rng.random()
+                if r < 0.4:
+                    pre.append({"m": method, "bins": json.loads(json.dumps(bins))})
+                elif r < 0.6:
+                    pre.append({"m": method, "bins": {"kind": "list", "edges": [edges[0] - 1.0, edges[0], edges[-1] + 0.5]}})
+                elif r < 0.85:
+                    pre.append({"m": rng.choice(["dNdy", "dNdpT", "dNdEta", "dNdmT"])})
+                else:
+                    pre.append({"m": rng.choice(MID_METHODS), "width": rng.choice([0.5, 1.0, 2.0]), "quantity": "rapidity"})
+            case["prelude"] = pre
         return case
     w = rng.choice([1.0, 1.0, 0.5, 2.0, 3.0, 0.25, 4])
     if rng.random() < 0.05:
@@ -368,6 +407,8 @@ def gen_case(rng):
     case = {"kind": "mid", "width": w, "quantity": q, "events": evs}
     if w == DEFAULT_MID["y_width"] and q == DEFAULT_MID["quantity"] and rng.random() < 0.5:
         case["defaults"] = True                               # the three methods are called without arguments
+    if evs and rng.random() < 0.1:
+        _share_particles(rng, case)
     if rng.random() < 0.5:
         # the object has been used before: same width with another flavour, same flavour with another width, a spectrum
         pre = []
@@ -418,12 +459,33 @@ def oracle(case):
         if got["exc"] is not None:
             return f"{case['method']}({bins_arg(b) if b else ''}) on {nev} event(s) {[len(e) for e in case['events']]} raises {got['exc']}"
         st = got["state"]
-        edges = [Fraction(x) for x in (st["edges"] if b is None or b["kind"] == "tuple" else H.nums(b["edges"]))]
+        if got.get("earlier_results_unchanged") is False:
+            return (f"{case['method']}: a histogram returned by an earlier call on the same BulkObservables object "
+                    f"({case.get('prelude')}) changed when the object was used again")
+        if b is None:
+            edges = [Fraction(x) for x in st["edges"]]          # the default binning is not part of the text: as returned
+        elif b["kind"] == "tuple":
+            # n bins between lo and hi: the edges of the returned histogram are used once they are lo + i (hi - lo) / n (as in C09:
+            # up to the rounding of one double, outer edges exact)
+            lo, hi, n = Fraction(H.num(b["lo"])), Fraction(H.num(b["hi"])), b["n"]
+            want_e = [lo + i * (hi - lo) / n for i in range(n + 1)]
+            if len(st["edges"]) != n + 1 or st["edges"][0] != float(lo) or st["edges"][-1] != float(hi) or not all(
+                    abs(Fraction(g) - w) <= Fraction(1, 10**15) + Fraction(1, 10**14) * (abs(w) + abs(Fraction(g))) for g, w in zip(st["edges"], want_e)):
+                return (f"{case['method']}({bins_arg(b)}): the returned histogram has the edges {st['edges']}, "
+                        f"expected {[float(w) for w in want_e]}")
+            edges = [Fraction(x) for x in st["edges"]]
+        else:
+            edges = [Fraction(x) for x in H.nums(b["edges"])]
+            if [Fraction(x) for x in st["edges"]] != edges:
+                return f"{case['method']}({bins_arg(b)}): the returned histogram has the edges {st['edges']}"
         if not all(x < y for x, y in zip(edges, edges[1:])):
             return None
         if st["H"]["nd"] != 2 or st["H"]["shape"] != [1, len(edges) - 1]:
             return f"{case['method']}: returned histogram has shape {st['H']['shape']}"
-        cont = st["H"]["data"][0]
+        hv = got.get("hist")
+        if hv is None or hv["nd"] != 2 or hv["shape"] != [1, len(edges) - 1]:
+            return f"{case['method']}: histogram() of the returned object has shape {hv and hv['shape']}"
+        cont = hv["data"][0]
         flat = [Fraction(v) for ev in vals for v in ev]
         total = Fraction(0)
         for i in range(len(edges) - 1):
@@ -655,6 +717,15 @@ def probe_cases():
         ps = [{"obs": {"y": v, "pt": abs(v), "mt": abs(v)}} for v in (lo, lo + 0.5, lo + 1.0, lo + 1.75, lo + 3.0, lo + 4.0)]
         for n in (2, 4, 8):
             out.append({"kind": "yield", "method": m, "bins": {"kind": "tuple", "lo": lo, "hi": lo + 4.0, "n": n}, "events": [ps, ps[:2], []]})
+        # ---- the object was used before and the caller kept the result; one particle object in several events
+        tb = {"kind": "tuple", "lo": lo, "hi": lo + 4.0, "n": 4}
+        for pre in ([{"m": m, "bins": tb}], [{"m": m, "bins": {"kind": "list", "edges": [lo, lo + 1.0, lo + 4.0]}}], [{"m": "dNdy"}, {"m": "dNdmT"}],
+                    [{"m": "mid_rapidity_yield", "width": 1.0, "quantity": "rapidity"}, {"m": m}]):
+            out.append({"kind": "yield", "method": m, "bins": tb, "events": [ps, ps[:2], []], "prelude": pre})
+        out.append({"kind": "yield", "method": m, "bins": tb, "events": [ps, ps[:2] + ps[:1], [ps[1]]], "alias_particles": True})
+    for q in ("rapidity", "pseudorapidity", "spacetime_rapidity"):
+        a, b2, c = _obs(0.25, 1.0, 2.0), _obs(-0.5, 0.5, 1.0), _obs(2.0, 4.0, 8.0)
+        out.append({"kind": "mid", "width": 1.0, "quantity": q, "events": [[a, b2, a], [a, c], [b2]], "alias_particles": True})
     return out
 
 
